@@ -113,7 +113,48 @@ fn values(ctx: &mut Ctx, size: usize) {
     }
 }
 
+/// large single prints through the real command line: stdout must carry every byte
+fn large_outputs(ctx: &mut Ctx) {
+    ctx.stage("large single prints through the real stdout (processes)");
+    let exe = ctx.exe.clone();
+    let mut progs: Vec<Vec<E>> = vec![];
+    for n in [60usize, 64, 200, 300, 5000] {
+        // "heading:\n" followed by a rendered array of n elements (6 bytes per element + brackets)
+        progs.push(vec![print("heading:\\n~", vec![array(int(n as i32), int(12345))])]);
+        progs.push(vec![print("~\\nend", vec![array(int(n as i32), int(12345))])]);
+        progs.push(vec![print("~", vec![array(int(n as i32), int(12345))]), print("\\ntail\\n", vec![])]);
+        progs.push(vec![let_("a", array(int(n as i32), array(int(3), E::Null))), print("a\\n~\\n~", vec![var("a"), var("a")])]);
+    }
+    for len in [1000usize, 1023, 1024, 1025, 4096, 70000] {
+        progs.push(vec![print(&format!("x\\n{}", "y".repeat(len)), vec![])]);
+        progs.push(vec![print(&format!("{}\\n{}", "z".repeat(len), "y".repeat(len)), vec![]), print("!", vec![])]);
+    }
+    for prog in progs {
+        if ctx.take().is_none() { continue }
+        let mut fuel = super::super::refsem::Fuel::default();
+        fuel.array = 10_000; fuel.output = 1_000_000; fuel.steps = 200_000;
+        let r = super::super::refsem::run_with(&prog, fuel, &[]);
+        if r.status != super::super::refsem::Status::Ok { ctx.count("unspecified", 1); continue }
+        let text = show(&prog);
+        let f = super::super::cli::write_file(&ctx.scratch, "big.fml", text.as_bytes());
+        let res = super::super::cli::simple(&exe, &["run", f.to_str().unwrap()]);
+        // and redirected to a file by a shell
+        let outf = ctx.scratch.join("big.out");
+        let sh = std::process::Command::new("sh").arg("-c").arg(format!("'{}' run '{}' > '{}'", exe.display(), f.display(), outf.display())).env("RUST_BACKTRACE", "0").status();
+        let redirected = std::fs::read(&outf).unwrap_or_default();
+        ctx.count("programs", 1); ctx.count("cli_runs", 2);
+        ctx.nontrivial(text.as_bytes());
+        for (how, ok, bytes) in [("pipe", res.ok(), res.stdout.clone()), ("redirected to a file", sh.map(|s| s.success()).unwrap_or(false), redirected)] {
+            if !ok || bytes != r.out.as_bytes() {
+                ctx.violation("print/large-output-incomplete", "`fml run` does not deliver the complete text of a large print to stdout",
+                    serde_json::json!({"text": if text.len() > 300 { format!("{}... ({} chars)", &text[..150], text.len()) } else { text.clone() }, "stdout": how, "expected_bytes": r.out.len(), "received_bytes": bytes.len(), "exit_ok": ok, "cli": "fml run <file> > out.txt"}));
+            }
+        }
+    }
+}
+
 pub fn run(ctx: &mut Ctx) {
+    large_outputs(ctx);
     formats(ctx, if ctx.quick() { 6 } else { 7 });
     values(ctx, if ctx.quick() { 4 } else { 5 });
 }
